@@ -20,7 +20,16 @@ func c19range(a string) *pgdump.BlockRange {
 		return nil
 	}
 	p := strings.Split(a, ",")
-	return &pgdump.BlockRange{Start: atoiArg(p[0]), End: atoiArg(p[1])}
+	r := &pgdump.BlockRange{Start: atoiArg(p[0]), End: atoiArg(p[1])}
+	// the range is the caller's (it may be reused on the next file): it must come back unchanged (seeded change C19-18)
+	c := *r
+	guardInput(func() string {
+		if *r != c {
+			return "block-range"
+		}
+		return ""
+	})
+	return r
 }
 
 func c19opts(a string) *pgdump.SegmentOptions {
